@@ -564,3 +564,62 @@ Example ex_af :
                            ([98], Some (mkM 2 3 2 3 3 1)); ([99; 100; 101], Some (mkM 3 6 3 6 3 2))] /\
              leaves_ok (pleaves t') (1, 1) = true.
 Proof. eexists. split; [vm_compute; reflexivity|]. split; vm_compute; reflexivity. Qed.
+
+(** ** position_segments does not panic on valid input *)
+Lemma wokb_first_leaf t : forall l c, wokb t l c = true -> exists m, first_leaf_pos t = Some m.
+Proof.
+  induction t as [i r p|i p ch IH] using ptree_ind'; intros l c; cbn [wokb first_leaf_pos].
+  - intros H. apply wpos_is_true in H as (m & -> & _). eauto.
+  - rewrite andb_true_iff. intros [Hp Hch]. destruct ch as [|x ch].
+    + apply wpos_is_true in Hp as (m & -> & _). eauto.
+    + cbn [chainb] in Hch. apply andb_true_iff in Hch as [Hx _].
+      inversion IH as [|? ? IHx _]; subst. eapply IHx; eauto.
+Qed.
+
+Lemma preb_fwd_end_point segs : forallb preb segs = true -> exists r, fwd_end_point segs = Some r.
+Proof.
+  induction segs as [|s segs IH]; cbn [forallb fwd_end_point]; [eauto|].
+  rewrite andb_true_iff. intros [Hs Hr]. destruct (pos_of s) as [m|] eqn:Ep; [|now apply IH].
+  assert (Hw : wokb s (m_wl m) (m_wp m) = true).
+  { destruct s as [i r p|i p ch]; cbn [pos_of] in Ep; subst.
+    - cbn [wokb wpos_is]. now rewrite !N.eqb_refl.
+    - exact Hs. }
+  destruct (wokb_first_leaf _ _ _ Hw) as (m' & ->). eauto.
+Qed.
+
+Section PSTotal.
+  Variable nls : list N.
+
+  Definition tree_total (t : ptree) : Prop :=
+    forall np, preb t = true -> exists t', ps_tree nls t np = Some t'.
+
+  Lemma loop_total parent : forall segs line pos prev,
+    Forall tree_total segs -> forallb preb segs = true ->
+    exists out, ps_loop nls (ps_tree nls) parent segs line pos prev = Some out.
+  Proof.
+    induction segs as [|seg rest IH]; intros line pos prev Htot Hpre; cbn [ps_loop]; [eauto|].
+    apply Forall_cons_iff in Htot as [Hseg Hrest].
+    cbn [forallb] in Hpre. apply andb_true_iff in Hpre as [Hp1 Hp2].
+    assert (Hnp : exists np0, (match pos_of seg with Some p => Some p | None => new_pos_for nls prev parent rest end) = Some np0).
+    { destruct (pos_of seg); [eauto|]. unfold new_pos_for.
+      destruct (preb_fwd_end_point rest Hp2) as ([ep|] & ->); eauto. }
+    destruct Hnp as (np0 & ->).
+    destruct (Hseg (with_working np0 line pos) Hp1) as (seg' & ->).
+    destruct (IH (fst (infer_next (raw_of seg) line pos)) (snd (infer_next (raw_of seg) line pos))
+                 (Some (with_working np0 line pos)) Hrest Hp2) as (out & ->). eauto.
+  Qed.
+
+  Lemma tree_total_all t : tree_total t.
+  Proof.
+    induction t as [i r p|i old ch IH] using ptree_ind'; intros np Hpre; cbn [ps_tree]; [eauto|].
+    destruct (is_empty ch || opt_marker_eqb old np); [eauto|].
+    destruct (loop_total np ch (m_wl np) (m_wp np) None IH (preb_children _ Hpre)) as (ch' & ->). eauto.
+  Qed.
+
+  Theorem position_segments_total segs parent :
+    forallb preb segs = true -> exists out, position_segments nls segs parent = Some out.
+  Proof.
+    intros Hpre. unfold position_segments. apply loop_total; [|exact Hpre].
+    apply Forall_forall. intros t _. apply tree_total_all.
+  Qed.
+End PSTotal.
